@@ -10,7 +10,7 @@ LEVEL = 'model_checking'
 INCLUDE = spaces.C02_SIX + ['n_geos_max', 'n_designs']
 RULE = ('Engine B: for every input of DEV(3,d) u DEV(4,d) (d = 1 quick, 2 thorough; complete deviation levels) and DEV(4,1) x 3 '
         'prior uses of the SAME data object by another matched-markets object (non-initial state of the data object), '
-        'explicit-state BFS to closure over a real TBRMatchedMarkets object. Alphabet (15 ops): geos_over_budget, '
+        'explicit-state BFS to closure over a real TBRMatchedMarkets object. Alphabet (17 ops, incl. two listings abandoned after their first element): geos_over_budget, '
         'geos_too_large, geos_must_include, geos_within_constraints, geo_assignments, treatment_group_size_range, '
         'count_max_designs, listings of treatment_group_generator(1|2) and control_group_generator({0}), '
         'design_within_constraints({0},{1}), exhaustive_search, greedy_search, search_results, plus one ENVIRONMENT action: another '
@@ -20,7 +20,7 @@ RULE = ('Engine B: for every input of DEV(3,d) u DEV(4,d) (d = 1 quick, 2 thorou
         '+ model (answer of the most recent search). On every transition: the answer (value or exception type) equals '
         'the answer of the same call on a freshly built object (search_results: the return value of the most recent '
         'search); dataclasses.asdict(parameters) equals its initial value. Plus one long linear history per input on ONE live, '
-        'never-copied object (all 15 operations in order, then in reverse order): answers against the fresh object, and the '
+        'never-copied object (all operations in order, then in reverse order): answers against the fresh object, and the '
         'caller\'s frame, eligibility frame and parameter object unmodified after every call. '
         'evaluations = transitions, distinct_nontrivial = distinct (input, state) pairs reached.')
 ASSUMPTIONS = ['copy.deepcopy of the matched-markets object is faithful (self-checked per input against the fingerprint)',
@@ -61,6 +61,9 @@ OPS = {
     'treatment_groups_1': lambda m: tuple(tuple(sorted(t)) for t in m.treatment_group_generator(1)),
     'treatment_groups_2': lambda m: tuple(tuple(sorted(t)) for t in m.treatment_group_generator(2)),
     'control_groups_T0': lambda m: tuple(tuple(sorted(c)) for c in m.control_group_generator({0})),
+    # a listing that the caller ABANDONS after the first element (generators left half-consumed)
+    'peek_control_groups_T0': lambda m: (lambda it: tuple(sorted(next(it, ()))))(m.control_group_generator({0})),
+    'peek_treatment_groups_2': lambda m: (lambda it: tuple(sorted(next(it, ()))))(m.treatment_group_generator(2)),
     'design_within_constraints_T0_C1': lambda m: bool(m.design_within_constraints({0}, {1})),
     'exhaustive_search': lambda m: take(m.exhaustive_search()),
     'greedy_search': lambda m: take(m.greedy_search()),
